@@ -1,6 +1,7 @@
 import Litestream.Lemmas.Ltx
 import Litestream.Model.LockPage
 import Litestream.Gen.LockPage
+import Litestream.Gen.PageOffsets
 /-!
 # C17 — Databases crossing the 1 GiB lock page replicate and restore correctly
 
@@ -206,6 +207,39 @@ theorem follow_apply_lock_zero {lock : Nat} (d : Db) (f : Ltx) (hok : PagesOk lo
     · rfl
   · intro p _ hp
     rw [apply_page]; simp [hp]
+
+/-! ### integer widths of the page-offset arithmetic
+
+The model computes `(pgno-1) * pageSize` in unbounded `Nat` and treats Go's integer conversions
+as the identity, so it cannot see a product carried out in 32 bits (which wraps for database
+offsets ≥ 4 GiB: page 65537 of a 64 KiB-page database would alias page 1).  The translator
+therefore emits, from go/types, the bit width of every multiplication in statements of the root
+package that mention a page size (writeLTXFromDB, writeLTXFromWAL, applyLTXFile, the WAL size
+helpers, …); the theorems below pin it: every product is computed in 64 bits, no arithmetic is
+narrowed, no 32-bit product is widened afterwards — and with that the model's unbounded
+arithmetic agrees with the code's (`page_offset_fits_int64`). -/
+
+theorem gen_page_offset_products_64bit : Gen.PageOffsets.offsetProducts.all (fun p => p.2.2 == 64) = true := by decide
+
+/-- the page loops still compute their offsets in place (a helper would be listed above instead) -/
+theorem gen_page_offset_anchors : Gen.PageOffsets.loopProducts.all (fun p => decide (1 ≤ p.2)) = true := by decide
+
+theorem gen_page_offset_no_narrowing : Gen.PageOffsets.narrowingOfArithmetic = [] := by decide
+
+theorem gen_page_offset_widened_no_product : Gen.PageOffsets.widenedNarrowArith.all (fun c => !c.2.2.2) = true := by decide
+
+/-- No 64-bit wrap: for every 32-bit page number and every valid page size the byte offset of the
+    page, and the end of the page, lie below 2^63. -/
+theorem page_offset_fits_int64 (pgno ps : Nat) (hp : pgno < 2 ^ 32) (hs : ps ≤ 65536) :
+    (pgno - 1) * ps < 2 ^ 63 ∧ (pgno - 1) * ps + ps < 2 ^ 63 := by
+  have h1 : (pgno - 1) * ps ≤ 2 ^ 32 * 65536 := Nat.mul_le_mul (by omega) hs
+  have h2 : (2 : Nat) ^ 32 * 65536 = 281474976710656 := by decide
+  have h3 : (2 : Nat) ^ 63 = 9223372036854775808 := by decide
+  omega
+
+/-- What a 32-bit product would do (kernel-checked): with 64 KiB pages, page 65537 — the first page
+    at an offset ≥ 4 GiB — lands on offset 0, i.e. on page 1. -/
+theorem offset_32bit_product_aliases : ((65537 - 1) * 65536) % 2 ^ 32 = (1 - 1) * 65536 ∧ (65537 - 1) * 65536 = 2 ^ 32 := by decide
 
 /-- Non-vacuity: page size 65536, growth from 16383 to 16387 pages across the lock page 16385. -/
 example : emittedFromWAL (lockPgno 65536) 16383 16387 [2, 16384] = [2, 16384, 16386, 16387] := by decide
